@@ -24,8 +24,7 @@ PROP_RULE = ("a case is (dataset split into before/update parts, SELECT text) fr
              "non-empty; distinct by (dataset, syntax tree).")
 
 KINDS = ["fresh", "stale", "empty", "zeros", "large", "swapped", "huge", "big"]
-OVERFLOW_KINDS = ("large", "huge", "big")
-PLAN_DEPENDENT = {"undef-filter-sibling", "bind-target-sibling", "memo-key-collision"}
+PLAN_DEPENDENT = {"undef-filter-sibling", "bind-target-sibling"}
 FINDING_OF = {"undef-filter-sibling": "C02-undef-filter-plan-dependence", "bind-target-sibling": "C02-bind-target-plan-dependence"}
 REQ = C1.REQ
 
@@ -139,9 +138,6 @@ def gen_cases(ctx, n):
     return cases, ops
 
 
-has_apostrophe_constant = L.has_apostrophe_constant
-
-
 def driver_case(c):
     return {k: c[k] for k in ("ds_before", "ds_update", "query", "kinds", "max_assign", "seed")}
 
@@ -187,9 +183,6 @@ def evaluate(ctx, binpath, cases, stream, threads, coq=True, known_seen=None):
         q = c["q"]
         im = base[i]
         classes, wellscoped = L.classify(q)
-        sel_classes = C1.extra_classes(q)        # memo-key-collision, group-by-without-aggregate (C01's SELECT-level classes)
-        if "memo-key-collision" in sel_classes:
-            classes = classes | {"memo-key-collision"}
         case_out = {"ds": c["ds"], "ds_before": c["ds_before"], "ds_update": c["ds_update"], "q": q, "query": c["query"]}
         if not wellscoped:
             continue
@@ -221,9 +214,7 @@ def evaluate(ctx, binpath, cases, stream, threads, coq=True, known_seen=None):
                                dict(case_out, impl_logical=im.get("logical")))
                 for k, ok in zip(c["vkinds"], oks):
                     st["plans_validated"] += 1
-                    if not ok and "memo-key-collision" in classes:
-                        st["memo_key_collisions_known"] = st.get("memo_key_collisions_known", 0) + 1
-                    elif not ok:
+                    if not ok:
                         ctx.broken("correspondence", stream + ":implements",
                                    "under %s statistics the optimizer emitted a plan outside the `implements` relation (coq/Sparql/PlanEquiv.v): either it learned a new rewrite or it is wrong" % k,
                                    dict(case_out, impl_logical=im.get("logical"), impl_physical=im["plans"][k], statistics=k))
@@ -255,12 +246,7 @@ def evaluate(ctx, binpath, cases, stream, threads, coq=True, known_seen=None):
         for k, p in plans.items():
             if isinstance(p, dict):
                 msg = str(p.get("panic"))
-                if k in OVERFLOW_KINDS and "overflow" in msg:
-                    st["cost_overflow_panics_known"] = st.get("cost_overflow_panics_known", 0) + 1
-                    if known_seen is not None:
-                        known_seen["cost-overflow"] = known_seen.get("cost-overflow", 0) + 1
-                else:
-                    panics.append({"statistics": k, "optimizer_panic": msg})
+                panics.append({"statistics": k, "optimizer_panic": msg})      # no statistics may make the optimizer panic
         if len(set(json.dumps(p) for p in plans.values())) > 1:
             st["cases_with_several_distinct_plans"] += 1
         for p in plans.values():
@@ -295,8 +281,6 @@ def evaluate(ctx, binpath, cases, stream, threads, coq=True, known_seen=None):
             es = im.get("entry_stale", {})
             spec = L.spec_answer(c["ds"], q)
             bad = L.check_answer(q, spec, es["rows"]) if "rows" in es else "no rows: %r" % (es,)
-            if sel_classes:
-                bad = None          # the final answer is inside a SELECT-level class of C01; the pattern solutions were compared above
             if bad:
                 st["violations"] += 1
                 ctx.violation(case_out, {"what": "execute_sparql_query with a stale statistics cache: " + bad, "implementation_rows": es.get("rows", [])[:30],
@@ -358,32 +342,6 @@ def replay_known(ctx, binpath):
     for k in ctx.known_findings():
         w = k["witness"]
         q, ds = w["q"], w["ds"]
-        if w.get("kind") == "memo-collision":
-            c = {"ds_before": ds, "ds_update": {"default": [], "named": []}, "query": L.print_query(q, None, False), "kinds": ["fresh"], "max_assign": 3, "seed": 1}
-            im = ctx.run_impl(binpath, [c])[0]
-            ctx.count()
-            want = pattern_solutions(ds, q)
-            got = im.get("results", [None])[0]
-            ok = None
-            try:
-                ok = C1.run_model_retry(ctx, ["implements_run %s %s" % (L.cquery(q), L.jpop(im["plans"]["fresh"]))], REQ + ["KV.Sparql.Lowering", "KV.Sparql.PlanEquiv"])[0]
-            except Exception as ex:       # noqa
-                ok = "not rendered: %s" % ex
-            if got is not None and not L.mus_equal(got, want):
-                ctx.known(k["id"], "%s -- %s: %d solutions for %d; implementsb on the emitted plan = %s" % (k["what"], c["query"], len(got), len(want), ok))
-            else:
-                ctx.log("known finding %s no longer reproduces" % k["id"])
-            continue
-        if w.get("kind") == "stats-overflow":
-            c = {"ds_before": ds, "ds_update": {"default": [], "named": []}, "query": L.print_query(q, None, False), "kinds": ["fresh", w["stats"]], "max_assign": 3, "seed": 1}
-            im = ctx.run_impl(binpath, [c])[0]
-            ctx.count()
-            p = im.get("plans", {}).get(w["stats"])
-            if isinstance(p, dict) and "overflow" in str(p.get("panic")):
-                ctx.known(k["id"], "%s -- %s under `%s` statistics: %s" % (k["what"], c["query"], w["stats"], p.get("panic")))
-            else:
-                ctx.log("known finding %s no longer reproduces" % k["id"])
-            continue
         c = {"ds_before": ds, "ds_update": {"default": [], "named": []}, "query": L.print_query(q, None, False), "kinds": KINDS, "max_assign": 81, "seed": 1}
         im = ctx.run_impl(binpath, [c])[0]
         ctx.count()
